@@ -80,7 +80,8 @@ def context():
             'z': {KU(3, 904): leaves[4], KU(4, 905): leaves[5]}, 'y': collections.deque([leaves[6], leaves[7]])}
     spec = optree.tree_structure(tree, namespace=NS)
     spec_b = optree.tree_structure(tree, namespace=NS)
-    return {'tree': tree, 'leaves': optree.tree_leaves(tree, namespace=NS), 'spec': spec, 'spec_b': spec_b}
+    return {'tree': tree, 'leaves': optree.tree_leaves(tree, namespace=NS), 'spec': spec, 'spec_b': spec_b,
+            'HNT': fresh_hooked_nt()}
 
 
 def enc(r):
@@ -216,15 +217,32 @@ def operations(ctx):
                             lambda hook: repr(optree.is_dict_insertion_ordered(namespace=NS))
                             if hasattr(optree, 'is_dict_insertion_ordered') else 'n/a', None),
         'shared_iter': ([L], shared_iter, None),
+        # the first classification of a fresh namedtuple class (interruptible inside the metaclass hook) against another
+        # thread flattening an instance of the same class
+        'classify_fresh_nt': (['include/optree/pytypes.h:IsNamedTupleClass'],
+                              lambda hook: repr(optree.is_namedtuple_class(ctx['HNT'])) + ' ' +
+                              enc(optree.tree_leaves((ctx['HNT'](1, 2), 3))), None),
+        'leaves_fresh_nt': ([L, 'include/optree/pytypes.h:IsNamedTupleClass'],
+                            lambda hook: enc(optree.tree_leaves((ctx['HNT'](1, 2), 3))) + ' ' +
+                            repr(optree.tree_structure(ctx['HNT'](1, 2)).num_leaves), None),
     }
     return ops
 
 
 A_OPS = ['flatten_pred', 'flatten_custom', 'flatten_with_path', 'map', 'unflatten', 'iter', 'spec_eq', 'spec_hash', 'spec_repr',
-         'pickle', 'register_nt', 'register_dup_hooked', 'unregister_missing_hooked', 'is_namedtuple_class', 'shared_iter']
+         'pickle', 'register_nt', 'register_dup_hooked', 'unregister_missing_hooked', 'is_namedtuple_class', 'shared_iter',
+         'classify_fresh_nt']
 B_OPS = ['flatten_custom', 'register_other', 'register_nt', 'unregister_nt', 'unregister_nt_registered',
          'unregister_other_registered', 'unregister_hooked_registered', 'flatten_nt_instance', 'spec_hash_same', 'spec_repr',
-         'spec_eq', 'unflatten', 'map', 'is_namedtuple_class', 'dict_order_read', 'paths_accessors', 'shared_iter']
+         'spec_eq', 'unflatten', 'map', 'is_namedtuple_class', 'dict_order_read', 'paths_accessors', 'shared_iter',
+         'leaves_fresh_nt']
+
+
+def fresh_hooked_nt():
+    """a namedtuple class the engine has never seen, whose class-attribute lookups (`_fields`, `_make`, `_asdict`) run user
+    code: its first classification can be interrupted"""
+    base = collections.namedtuple('HB', ['x', 'y'])
+    return HookMeta('HookedNT', (base,), {'__slots__': ()})
 
 
 def _mk_ctx():
@@ -274,6 +292,7 @@ def run_pair(name_a, name_b, park_at, timeout=20):
                 if ops[n][2] is not None:
                     ops[n][2]()
             ctx['shared_iter'] = ctx['mk_iter']()
+            ctx['HNT'] = fresh_hooked_nt()      # unseen by the engine at the start of each of the three runs
 
         def sequential(first, second):
             setup()
